@@ -167,6 +167,10 @@ package requestmanager
 //@   requires forall j int :: 0 <= j && j < len(blks) ==> blks[j] != nil
 //@   modifies inProgressRequestStatus.terminalError, rm.inProgressRequestStatuses[*], closedErr, closedProg, alloc
 //@   ensures invRM(rm)
+//@   -- C01: if every received block hashes to its own CID (what the decoder establishes), the block bytes offered to a
+//@   -- request's loader are keyed by the CID they hash to
+//@   loop 2 invariant blkListOK(blks) ==> (forall c cid.Cid :: c in blkMap ==> isSumOf(c, blkMap[c]))
+//@   callsite ReconciledLoader.IngestResponse: assert blkListOK(blks) ==> (forall c cid.Cid :: c in arg2 ==> isSumOf(c, arg2[c]))
 //@   callsite RequestManager.updateLastResponses: assert forall j int :: 0 <= j && j < len($responses) ==> owned(rm, p, $responses[j].requestID)
 //@   callsite ReconciledLoader.IngestResponse: assert owned(rm, p, response.requestID)
 //@   callsite RequestManager.processTerminations: assert forall j int :: 0 <= j && j < len($responses) ==> owned(rm, p, $responses[j].requestID)
@@ -221,3 +225,14 @@ package requestmanager
 //@   ensures forall k graphsync.RequestID :: k in peerState.RequestStates ==> peerState.RequestStates[k] == rm.inProgressRequestStatuses[k].state
 //@   loop 1 invariant forall k graphsync.RequestID :: (k in requestStates) <==> (seen1[k] && rm.inProgressRequestStatuses[k].p == p)
 //@   loop 1 invariant forall k graphsync.RequestID :: k in requestStates ==> requestStates[k] == rm.inProgressRequestStatuses[k].state
+
+//@ -- C01: the received blocks reach the manager loop unchanged
+//@ func RequestManager.ProcessResponses
+//@   lenient
+//@   safety off
+//@   modifies alloc
+//@   callsite RequestManager.send: assert cast(arg0, "*processResponsesMessage").blks == blks && cast(arg0, "*processResponsesMessage").p == p
+//@ func processResponsesMessage.handle
+//@   lenient
+//@   safety off
+//@   callsite RequestManager.processResponses: assert $blks == prm.blks && $p == prm.p && $responses == prm.responses
